@@ -13,8 +13,11 @@ proof:   Properties_C06.v — soundness of the product-reachability certificate 
          annihilation, delay balance, warm-up mask)
 verified per design:
          `cert strict REF HINTED` (identical pin values incl. undefined bits in every cycle); if that is not
-         accepted: `cert refine REF HINTED` and `cert refine HINTED REF` (never contradict; identical while the
-         first design's run has been free of undefined values).  All three are decided by the VERIFIED checker.
+         accepted: `cert refine REF HINTED` = C01's observable condition: never contradict (a symmetric relation,
+         so it also covers "compat HINTED REF"), and identical while REF's run has been free of undefined values.
+         The other direction of refine is NOT demanded: retiming legitimately makes bits defined that the
+         reference leaves undefined (reset values are recomputed through masking logic, constant folding).
+         Both are decided by the VERIFIED checker (cert_sound_strict / cert_sound).
          every-cycle claim : stateless regions, autonomous state behind a movable register, movable registers
                              (forward, backward, partial enables), negative registers  — outputs compared raw
          from-fill claim   : regions with feed-forward (anchored) registers — BOTH designs get the same warm-up
@@ -153,18 +156,16 @@ def main():
         cmds2 = []
         for i in again:
             cmds2.append(f"cert refine {out}/{i}.ref.net {out}/{i}.hint.net {out}/{i}.ref.trace {budget}")
-            cmds2.append(f"cert refine {out}/{i}.hint.net {out}/{i}.ref.net {out}/{i}.ref.trace {budget}")
         lines2 = circ.run_driver(driver, cmds2, str(WORK / "batch2")) if cmds2 else []
     else:
         strict, lines2 = {}, []
     t_cert = time.time() - t_cert
     fwd = {l.split()[1].split(".")[0]: l for l in lines2 if l.startswith("CERT") and ".ref.net" in l.split()[1]}
-    bwd = {l.split()[1].split(".")[0]: l for l in lines2 if l.startswith("CERT") and ".hint.net" in l.split()[1]}
     tie_ok = sum(1 for l in lines if l.startswith("TIE") and " ok " in l)
     tie_bad = [l for l in lines if l.startswith("TIE") and "MISMATCH" in l]
     tie_uns = [l for l in lines if l.startswith("TIE") and ("UNSUPPORTED" in l or "BADORDER" in l)]
     errors = [l for l in lines + lines2 if l.startswith("ERROR")]
-    allcert = list(strict.values()) + list(fwd.values()) + list(bwd.values())
+    allcert = list(strict.values()) + list(fwd.values())
     cert_rej = [l for l in allcert if " REJECTED " in l]
 
     # verdict per design: 'strict' | 'refine' | 'fail' | 'toobig' | 'unsupported'
@@ -178,13 +179,13 @@ def main():
         elif " UNSUPPORTED " in s:
             verdict[i] = "unsupported"
         elif " FAIL " in s:
-            f, b = fwd.get(i, ""), bwd.get(i, "")
-            if " OK " in f and " OK " in b:
+            f = fwd.get(i, "")
+            if " OK " in f:
                 verdict[i] = "refine"
-            elif " FAIL " in f or " FAIL " in b:
+            elif " FAIL " in f:
                 verdict[i] = "fail"
-                failing[i] = f if " FAIL " in f else b
-            elif " TOOBIG " in f or " TOOBIG " in b:
+                failing[i] = f
+            elif " TOOBIG " in f:
                 verdict[i] = "toobig"
             else:
                 verdict[i] = "other"
@@ -263,7 +264,7 @@ def main():
     rep.cov["programs_rejected_by_frontend_or_retiming"] = len(skipped)
     rep.cov["traces_validated_against_impl"] = tie_ok
     rep.cov["validated_strict_every_value_identical"] = sum(1 for i in built if verdict[i] == "strict")
-    rep.cov["validated_refine_both_directions"] = sum(1 for i in built if verdict[i] == "refine")
+    rep.cov["validated_refine_ref_to_hinted"] = sum(1 for i in built if verdict[i] == "refine")
     rep.cov["claim_every_cycle_validated"] = sum(1 for i in validated if M[i]["claim"] == "every-cycle")
     rep.cov["claim_from_fill_cycle_validated_with_warmup_mask"] = sum(1 for i in validated if M[i]["claim"] == "from-fill")
     rep.cov["certificates_failed"] = len(failing)
@@ -282,7 +283,7 @@ def main():
     rep.cov["budget_evaluations_per_certificate"] = budget
     smp = [i for i in validated if sum(info[i]["N"].values()) > 0][-2:] or validated[-1:]
     rep.cov["samples"] = [dict(design=prog[i], template=M[i]["template"], N=info[i]["N"], K=info[i]["K"],
-                               cert=strict[i] if verdict[i] == "strict" else [strict[i], fwd[i], bwd[i]]) for i in smp]
+                               cert=strict[i] if verdict[i] == "strict" else [strict[i], fwd[i]]) for i in smp]
     if skipped:
         rep.cov["skip_samples"] = [dict(design=prog[i], why=info[i]["skip"][:1]) for i in skipped[:2]]
     rep.assumptions += [
